@@ -131,7 +131,9 @@ Section Dec.
     intros Hlo. unfold dec_tsig.
     repeat (apply tame_bind; [first [apply tame_get_name | apply tame_get_uint48 | apply tame_get_uint
                                     | apply tame_get_counted | apply tame_get_struct]; auto | intros ?]).
-    apply tame_ret.
+    match goal with |- tame lo (match ?h with _ => _ end) => destruct h as [|? [|error [|? ?]]] end;
+      try apply tame_raise.
+    destruct (error >? 4095); [apply tame_raise|apply tame_ret].
   Qed.
 
   Lemma tame_dec_soa lo origin : 0 <= lo -> tame lo (dec_soa wire origin).
